@@ -17,6 +17,7 @@ import (
 	"sync"
 	"sync/atomic"
 	"time"
+	"unsafe"
 
 	"github.com/q191201771/lal/pkg/base"
 	"github.com/q191201771/lal/pkg/httpflv"
@@ -27,6 +28,7 @@ import (
 	"github.com/q191201771/lal/pkg/rtsp"
 	"github.com/q191201771/lal/pkg/sdp"
 	"github.com/q191201771/naza/pkg/connection"
+	"github.com/q191201771/naza/pkg/nazanet"
 )
 
 // a wait that does not end within the watchdog is reported as "stuck" /
@@ -171,7 +173,12 @@ func (c *stallConn) waitFor(pred func() bool) error {
 // one consumer = one real lal session on a stallConn
 
 type c15Cons struct {
-	kind    string
+	kind    string // base kind: rtmp rtmpv flv wsflv ts wsts rtp wsrtp
+	setup   string // rtsp: one letter per track (video, audio): n u t b
+	att     *int64 // connection.Write / Writev calls made by the session
+	stat    func() uint64
+	udpRecv [2]*net.UDPConn // rtsp: the player's RTP sockets (video, audio)
+	udpSrv  []*nazanet.UdpConnection
 	conn    *stallConn
 	owner   interface{} // struct that (transitively) holds the naza connection
 	path    []string    // field path from owner to the connection.Connection
@@ -199,11 +206,117 @@ func (c *c15Cons) chanLen() int {
 	for v.Kind() == reflect.Ptr || v.Kind() == reflect.Interface {
 		v = v.Elem()
 	}
+	if v.Type() == reflect.TypeOf(c15CountConn{}) {
+		v = v.FieldByName("Connection")
+		for v.Kind() == reflect.Ptr || v.Kind() == reflect.Interface {
+			v = v.Elem()
+		}
+	}
 	ch := v.FieldByName("wChan")
 	if !ch.IsValid() || ch.IsNil() {
 		return 0
 	}
 	return ch.Len()
+}
+
+// c15CountConn sits between a session and its naza connection and counts the
+// Write / Writev calls the session makes (a call on a full or closed queue
+// returns at once and leaves no other trace).
+type c15CountConn struct {
+	connection.Connection
+	n *int64
+}
+
+func (c *c15CountConn) Write(b []byte) (int, error) {
+	atomic.AddInt64(c.n, 1)
+	return c.Connection.Write(b)
+}
+
+func (c *c15CountConn) Writev(b net.Buffers) (int, error) {
+	atomic.AddInt64(c.n, 1)
+	return c.Connection.Writev(b)
+}
+
+// countWrites replaces the (unexported) connection field at the end of the
+// consumer's field path by the counting wrapper.
+func (c *c15Cons) countWrites() {
+	v := reflect.ValueOf(c.owner)
+	for _, f := range c.path {
+		for v.Kind() == reflect.Ptr || v.Kind() == reflect.Interface {
+			v = v.Elem()
+		}
+		v = v.FieldByName(f)
+	}
+	field := reflect.NewAt(v.Type(), unsafe.Pointer(v.UnsafeAddr())).Elem()
+	inner := field.Interface().(connection.Connection)
+	c.att = new(int64)
+	field.Set(reflect.ValueOf(&c15CountConn{Connection: inner, n: c.att}))
+}
+
+// rtsp: does a packet with this payload go to the command connection
+func (c *c15Cons) tcpFor(raw []byte) bool {
+	if len(raw) < 2 {
+		return false
+	}
+	switch raw[1] & 0x7f {
+	case 96:
+		return c.setup[0] == 't' || c.setup[0] == 'b'
+	case 97:
+		return c.setup[1] == 't' || c.setup[1] == 'b'
+	}
+	return false
+}
+
+// one track over UDP: the player's RTP socket, and lal's RTP / RTCP sockets
+// aimed at it (as rtsp.initConnWithClientPort builds them)
+func (c *c15Cons) udpTrack(i int) (rtp, rtcp *nazanet.UdpConnection) {
+	recv, err := net.ListenUDP("udp4", &net.UDPAddr{IP: net.IPv4(127, 0, 0, 1)})
+	if err != nil {
+		panic("c15 udp listen: " + err.Error())
+	}
+	c.udpRecv[i] = recv
+	mk := func() *nazanet.UdpConnection {
+		u, err := nazanet.NewUdpConnection(func(o *nazanet.UdpConnectionOption) {
+			o.LAddr = "127.0.0.1:0"
+			o.RAddr = recv.LocalAddr().String()
+			o.MaxReadPacketSize = 1500
+		})
+		if err != nil {
+			panic("c15 udp conn: " + err.Error())
+		}
+		c.udpSrv = append(c.udpSrv, u)
+		return u
+	}
+	return mk(), mk()
+}
+
+// datagrams received so far on one of the player's sockets.  A sentinel the
+// socket sends to itself marks the end: everything sent before is in front.
+func c15Datagrams(u *net.UDPConn) string {
+	if u == nil {
+		return "-"
+	}
+	sentinel := []byte("c15-end-of-datagrams")
+	if _, err := u.WriteToUDP(sentinel, u.LocalAddr().(*net.UDPAddr)); err != nil {
+		return "udp-err"
+	}
+	_ = u.SetReadDeadline(time.Now().Add(c15WatchdogDur()))
+	buf := make([]byte, 65536)
+	var parts []string
+	for {
+		n, _, err := u.ReadFromUDP(buf)
+		if err != nil {
+			return "udp-stuck"
+		}
+		if bytes.Equal(buf[:n], sentinel) {
+			break
+		}
+		parts = append(parts, tokBytes(buf[:n]))
+	}
+	if len(parts) == 0 {
+		return "-"
+	}
+	return strings.Join(parts, ",")
 }
 
 const c15Sdp = "v=0\r\no=- 0 0 IN IP4 127.0.0.1\r\ns=No Name\r\nc=IN IP4 127.0.0.1\r\nt=0 0\r\n" +
@@ -222,8 +335,20 @@ func joinBufs(bufs [][]byte) []byte {
 	return out
 }
 
-func newC15Cons(kind string, capacity int) *c15Cons {
-	c := &c15Cons{kind: kind, conn: newStallConn()}
+func newC15Cons(spec string, capacity int) *c15Cons {
+	kind, setup := spec, "tt"
+	if i := strings.IndexByte(spec, '.'); i >= 0 {
+		kind, setup = spec[:i], spec[i+1:]
+		if (kind != "rtp" && kind != "wsrtp") || len(setup) != 2 || strings.Trim(setup, "nutb") != "" {
+			panic("c15: bad consumer " + spec)
+		}
+	}
+	c := &c15Cons{kind: kind, setup: setup, conn: newStallConn()}
+	defer func() {
+		if c.owner != nil {
+			c.countWrites()
+		}
+	}()
 	switch kind {
 	case "rtmp", "rtmpv":
 		old := rtmp.VerifC15SetWChanSize(capacity)
@@ -292,11 +417,19 @@ func newC15Cons(kind string, capacity int) *c15Cons {
 			panic("c15 sdp: " + err.Error())
 		}
 		sub.InitWithSdp(ctx)
-		if err := sub.SetupWithChannel("rtsp://h/live/s/streamid=0", 0, 1); err != nil {
-			panic("c15 setup video")
-		}
-		if err := sub.SetupWithChannel("rtsp://h/live/s/streamid=1", 2, 3); err != nil {
-			panic("c15 setup audio")
+		// SETUP, per track: nothing, UDP sockets, an interleaved channel pair, or both
+		for i, uri := range []string{"rtsp://h/live/s/streamid=0", "rtsp://h/live/s/streamid=1"} {
+			if setup[i] == 'u' || setup[i] == 'b' {
+				rtp, rtcp := c.udpTrack(i)
+				if err := sub.SetupWithConn(uri, rtp, rtcp); err != nil {
+					panic("c15 setup udp")
+				}
+			}
+			if setup[i] == 't' || setup[i] == 'b' {
+				if err := sub.SetupWithChannel(uri, 2*i, 2*i+1); err != nil {
+					panic("c15 setup channel")
+				}
+			}
 		}
 		sub.Stage.Store(rtsp.SubSessionStageReadPlay)
 		c.owner, c.path = sub, []string{"cmdSession", "conn"}
@@ -309,11 +442,12 @@ func newC15Cons(kind string, capacity int) *c15Cons {
 				h.PacketType = 0xff
 			}
 			sub.WriteRtpPacket(rtprtcp.RtpPacket{Header: h, Raw: raw})
-			if h.PacketType != 96 && h.PacketType != 97 {
-				return -1 // nothing was handed to the connection
+			if !c.tcpFor(raw) {
+				return -1 // nothing was handed to the command connection
 			}
 			return 0
 		}
+		c.stat = func() uint64 { return sub.GetStat().WroteBytesSum }
 		c.isAlive = func() bool { _, w := sub.IsAlive(); return w }
 		c.dispose = func() { _ = sub.Dispose() }
 	default:
@@ -407,7 +541,13 @@ func (c *c15Cons) fail(n int) error {
 	c.conn.grants = append(c.conn.grants, stallGrant{fail: true, n: n})
 	c.conn.cond.Broadcast()
 	c.conn.mu.Unlock()
-	return c.conn.waitFor(func() bool { return c.conn.closed && !c.conn.blocked })
+	err := c.conn.waitFor(func() bool { return c.conn.closed && !c.conn.blocked })
+	if err == nil && (c.kind == "rtp" || c.kind == "wsrtp") {
+		// the command connection closed itself: rtsp.Server.handleTcpConnect leaves RunLoop
+		// and disposes the sub session (which closes its UDP sockets)
+		c.dispose()
+	}
+	return err
 }
 
 func (c *c15Cons) disposeAndSettle() error {
@@ -430,6 +570,25 @@ func (c *c15Cons) drain() error {
 func (c *c15Cons) cleanup() {
 	c.dispose()
 	_ = c.conn.Close()
+	for _, u := range c.udpSrv {
+		_ = u.Dispose()
+	}
+	for _, u := range c.udpRecv {
+		if u != nil {
+			_ = u.Close()
+		}
+	}
+}
+
+// 7th output field: connection write calls; rtsp kinds also the session's own
+// byte counter (what the liveness sweep compares) and the datagrams each of the
+// player's UDP sockets received
+func (c *c15Cons) extra() string {
+	att := tokNum(uint64(atomic.LoadInt64(c.att)))
+	if c.kind != "rtp" && c.kind != "wsrtp" {
+		return att
+	}
+	return fmt.Sprintf("%s/%s/%s/%s", att, tokNum(c.stat()), c15Datagrams(c.udpRecv[0]), c15Datagrams(c.udpRecv[1]))
 }
 
 // report: codes;pre;q;h;state;wire
@@ -438,7 +597,9 @@ func c15Report(cs []*c15Cons, norm func([]byte) []byte) (string, error) {
 		pre, q, h int
 	}
 	snaps := make([]snap, len(cs))
+	extras := make([]string, len(cs))
 	for i, c := range cs {
+		extras[i] = c.extra()
 		s := snap{pre: len(norm(c.conn.received()))}
 		if c.conn.isBlocked() {
 			s.h = 1
@@ -463,8 +624,8 @@ func c15Report(cs []*c15Cons, norm func([]byte) []byte) (string, error) {
 		if codes == "" {
 			codes = "-"
 		}
-		parts = append(parts, fmt.Sprintf("%s;%s;%s;%d;%s;%s", codes, tokNum(uint64(snaps[i].pre)), tokNum(uint64(snaps[i].q)),
-			snaps[i].h, st, tokBytes(norm(c.conn.received()))))
+		parts = append(parts, fmt.Sprintf("%s;%s;%s;%d;%s;%s;%s", codes, tokNum(uint64(snaps[i].pre)), tokNum(uint64(snaps[i].q)),
+			snaps[i].h, st, tokBytes(norm(c.conn.received())), extras[i]))
 	}
 	return strings.Join(parts, " "), nil
 }
